@@ -82,7 +82,7 @@ func runValid(c validCase) (pbt.Result, error) {
 		return res, nil // plan not encodable (too large): not a case
 	}
 	// sanity of the oracle itself (never a verdict on the library)
-	if back, derr := ref.Decode(L.Segs, true); derr != nil || !ref.Identical(back, c.Value) {
+	if back, derr := ref.Decode(L.Segs, c.Plan.PadFill == 0); derr != nil || !ref.Identical(back, c.Value) {
 		panic(fmt.Sprintf("harness: ref cannot round-trip its own encoding: %v", derr))
 	}
 	seen := map[string]bool{}
@@ -118,11 +118,16 @@ var _ = pbt.Register(pbt.Spec[validCase]{
 	Rule:     "value tree (depth<=4; structs 0-3 data words x 0-3 pointers incl. zero-sized; all 8 list kinds; composite lists with/without pointers and n=0; caps) encoded by ref.Encode under a drawn plan (1-5 segments, object placement/order, per-edge near/far/double-far, junk gaps, non-canonical zero-size offsets), opened via MultiSegment/SingleSegment/Unmarshal/UnmarshalPacked; oracle: lock-step walk of the public API against the independent decoder: every struct size, every data read at widths 1/8/16/32/64 at all offsets incl. past-the-end (=0), every Ptr(i) incl. past-the-end (=null), HasPtr, list lengths/elements through typed wrappers, primitive-list elements viewed as structs, composite lists viewed through primitive and pointer wrappers, Text/Data bytes, capability indices. Non-trivial: depth>=2 and the encoding has a far or double-far pointer, a composite list or a zero-sized struct.",
 	Quick:    12000, Thorough: 250000,
 	Gen: func(t *rapid.T) validCase {
-		return validCase{
+		c := validCase{
 			Value: gen.ValueTree(t, gen.TreeOpts{MaxDepth: rapid.IntRange(1, 4).Draw(t, "depth"), Caps: true, MaxCap: 4}),
 			Plan:  gen.Plan(t, 5),
 			Via:   rapid.IntRange(0, 3).Draw(t, "via"),
 		}
+		if rapid.IntRange(0, 3).Draw(t, "padfill") == 0 {
+			// list padding (unused bits of a bit list's last byte, bytes up to the word boundary) is not zero: it denotes nothing
+			c.Plan.PadFill = byte(rapid.SampledFrom([]int{0xff, 0xa5, 0xf0, 0x80}).Draw(t, "pad"))
+		}
+		return c
 	},
 	Run: runValid,
 })
